@@ -147,8 +147,11 @@ d = tempfile.mkdtemp(); so = d + "/k.so"
 subprocess.check_call(["g++", "-O2", "-shared", "-fPIC", "-D__NO_INTRINSICS", "-I" + G + "/include", "-I" + G + "/src/kernels", G + "/src/geometry.cpp", "-o", so])
 lib = ctypes.CDLL(so)
 rng = np.random.RandomState(3); bad = 0
-for trial in range(40):
+for trial in range(240):
     x = (rng.rand(1, 4, 3) * 6 - 3).astype(np.float32); cell = np.array([[3.0, 0, 0], [0.7, 3.2, 0], [0.4, -0.9, 2.8]])
+    if trial >= 40 and "{kernel}".startswith("angle"):       # exactly collinear bond vectors (angle 0 or pi): where the clamp of the cosine matters in floating point
+        u = (rng.rand(3) - 0.5).astype(np.float32); s1, s2 = np.float32(rng.rand() * 0.4 + 0.05), np.float32((rng.rand() * 0.4 + 0.05) * (1 if trial % 2 else -1))
+        x[0, 0] = x[0, 1] + s1 * u; x[0, 2] = x[0, 1] + s2 * u
     box = np.ascontiguousarray(cell.T[None], dtype=np.float32)
     def mic(v):
         import itertools
@@ -168,7 +171,7 @@ for trial in range(40):
     args = [fp(x), fp(idx)] + ([fp(box)] if per else []) + [fp(out), 1, 4, 1]
     getattr(lib, "{kernel}")(*args)
     dlt = abs(out[0] - want); dlt = min(dlt, abs(dlt - 2 * math.pi))
-    if dlt > 2e-3: bad += 1
+    if not np.isfinite(out[0]) or dlt > (2e-3 if trial < 40 else 5e-3): bad += 1
 print("{kernel}: trials deviating from the definition:", bad)
 sys.exit(1 if bad else 0)
 '''
